@@ -166,6 +166,17 @@ type DocP struct {
 type PtrSelf *PtrSelf
 type PtrA *PtrB
 type PtrB *PtrA
+// chains that ENTER a pointer cycle from outside it (rho shapes), and a cycle of three
+type PtrIntoSelf *PtrSelf
+type PtrTail1 *PtrTail2
+type PtrTail2 *PtrA
+type PtrC1 *PtrC2
+type PtrC2 *PtrC3
+type PtrC3 *PtrC1
+type HoldsRho struct {
+	A int         `json:"a"`
+	R PtrIntoSelf `json:"r"`
+}
 type PtrInt *int
 type PtrInner *Inner
 type HoldsPtrs struct {
@@ -192,6 +203,8 @@ var bank = map[string]reflect.Type{
 	"Levels": reflect.TypeFor[Levels](), "Markers": reflect.TypeFor[Markers](),
 	"IDt": reflect.TypeFor[IDt](), "BaseT": reflect.TypeFor[BaseT](), "DocT": reflect.TypeFor[DocT](), "DocP": reflect.TypeFor[DocP](), "TwoEmb": reflect.TypeFor[TwoEmb](), "TwoEmbDeep": reflect.TypeFor[TwoEmbDeep](),
 	"PtrSelf": reflect.TypeFor[PtrSelf](), "PtrA": reflect.TypeFor[PtrA](), "PtrInt": reflect.TypeFor[PtrInt](),
+	"PtrIntoSelf": reflect.TypeFor[PtrIntoSelf](), "PtrTail1": reflect.TypeFor[PtrTail1](), "PtrC1": reflect.TypeFor[PtrC1](),
+	"HoldsRho": reflect.TypeFor[HoldsRho](),
 	"PtrInner": reflect.TypeFor[PtrInner](), "HoldsPtrs": reflect.TypeFor[HoldsPtrs](),
 	"Handler": reflect.TypeFor[Handler](), "IntKeyed": reflect.TypeFor[IntKeyed](), "MyChan": reflect.TypeFor[MyChan](),
 	"TwoHandlers": reflect.TypeFor[TwoHandlers](),
